@@ -1,6 +1,238 @@
+//! Build script of the simulator.
+//!  * exports the interposed libc symbols of the harness binary in its dynamic symbol table;
+//!  * scans the working tree's checked-in prost bindings (rust/ommx/src/ommx.v1.rs) and generates the registry
+//!    used by C07: for every message type a decode / re-encode / self-round-trip entry keyed by its protobuf
+//!    full name, and a static table of every `#[prost(...)]` attribute (tag, scalar type keyword, label) and of
+//!    every enum value, so that a type, field or value that exists on one side only is itself detectable.
+
+use std::collections::BTreeMap;
+use std::fmt::Write as _;
+
+const BINDINGS: &str = "/repo/rust/ommx/src/ommx.v1.rs";
+
+#[derive(Debug, Clone)]
+struct Field {
+    name: String,
+    attr: String,
+}
+#[derive(Debug, Clone)]
+struct Item {
+    modpath: Vec<String>,
+    name: String,
+    /// "message" | "oneof" | "enum"
+    kind: &'static str,
+    fields: Vec<Field>,
+    /// enum: (variant, number)
+    values: Vec<(String, i64)>,
+    /// enum: variant -> proto name
+    str_names: BTreeMap<String, String>,
+}
+
+fn snake(s: &str) -> String {
+    let mut out = String::new();
+    for (i, c) in s.chars().enumerate() {
+        if c.is_uppercase() && i > 0 {
+            out.push('_');
+        }
+        out.extend(c.to_lowercase());
+    }
+    out
+}
+
+fn parse(src: &str) -> Vec<Item> {
+    let mut items: Vec<Item> = vec![];
+    let mut modstack: Vec<(String, i32)> = vec![];
+    let mut depth: i32 = 0;
+    let mut pending_derive: Option<&'static str> = None;
+    let mut cur: Option<(usize, i32)> = None; // index into items, depth at which it closes
+    let mut pending_attr: Option<String> = None;
+    let mut in_str_name_impl: Option<(String, i32)> = None;
+    let lines: Vec<&str> = src.lines().collect();
+    let mut i = 0;
+    while i < lines.len() {
+        let line = lines[i].trim();
+        i += 1;
+        if line.starts_with("///") || line.starts_with("//") {
+            continue;
+        }
+        if line.starts_with("#[derive(") {
+            pending_derive = if line.contains("::prost::Message") {
+                Some("message")
+            } else if line.contains("::prost::Oneof") {
+                Some("oneof")
+            } else if line.contains("::prost::Enumeration") {
+                Some("enum")
+            } else {
+                None
+            };
+        }
+        if let Some(rest) = line.strip_prefix("pub mod ") {
+            if let Some(name) = rest.strip_suffix(" {") {
+                modstack.push((name.trim().to_string(), depth));
+            }
+        }
+        if let Some(kind) = pending_derive {
+            let head = if kind == "message" { "pub struct " } else { "pub enum " };
+            if let Some(rest) = line.strip_prefix(head) {
+                let name: String = rest.chars().take_while(|c| c.is_alphanumeric() || *c == '_').collect();
+                items.push(Item { modpath: modstack.iter().map(|m| m.0.clone()).collect(), name, kind, fields: vec![], values: vec![], str_names: BTreeMap::new() });
+                if line.ends_with('{') {
+                    cur = Some((items.len() - 1, depth));
+                }
+                pending_derive = None;
+            }
+        }
+        if let Some(rest) = line.strip_prefix("impl ") {
+            // `impl Equality {` followed by as_str_name
+            let name: String = rest.chars().take_while(|c| c.is_alphanumeric() || *c == '_').collect();
+            if rest.trim_end().ends_with('{') && !rest.contains(" for ") {
+                in_str_name_impl = Some((name, depth));
+            }
+        }
+        if let Some((idx, _)) = cur {
+            if line.starts_with("#[prost(") {
+                let mut a = line.to_string();
+                // attributes may continue on following lines
+                while !a.trim_end().ends_with(")]") && i < lines.len() {
+                    a.push(' ');
+                    a.push_str(lines[i].trim());
+                    i += 1;
+                }
+                pending_attr = Some(a);
+            } else if let Some(attr) = pending_attr.clone() {
+                if items[idx].kind == "message" {
+                    if let Some(rest) = line.strip_prefix("pub ") {
+                        let name: String = rest.chars().take_while(|c| c.is_alphanumeric() || *c == '_').collect();
+                        items[idx].fields.push(Field { name, attr });
+                        pending_attr = None;
+                    }
+                } else if items[idx].kind == "oneof" && !line.starts_with('#') && !line.is_empty() {
+                    let name: String = line.chars().take_while(|c| c.is_alphanumeric() || *c == '_').collect();
+                    if !name.is_empty() {
+                        items[idx].fields.push(Field { name, attr });
+                        pending_attr = None;
+                    }
+                }
+            }
+            if items[idx].kind == "enum" {
+                // `Variant = 3,`
+                if let Some((l, r)) = line.split_once(" = ") {
+                    let name = l.trim();
+                    let num = r.trim().trim_end_matches(',');
+                    if name.chars().all(|c| c.is_alphanumeric() || c == '_') && !name.is_empty() {
+                        if let Ok(n) = num.parse::<i64>() {
+                            items[idx].values.push((name.to_string(), n));
+                        }
+                    }
+                }
+            }
+        }
+        if let Some((en, _)) = &in_str_name_impl {
+            // `Equality::EqualToZero => "EQUALITY_EQUAL_TO_ZERO",` (only inside as_str_name)
+            if let Some((l, r)) = line.split_once(" => ") {
+                if let Some(v) = l.trim().strip_prefix(&format!("{}::", en)) {
+                    if r.trim().starts_with('"') {
+                        let s = r.trim().trim_end_matches(',').trim_matches('"').to_string();
+                        let modpath: Vec<String> = modstack.iter().map(|m| m.0.clone()).collect();
+                        if let Some(it) = items.iter_mut().find(|it| it.kind == "enum" && it.name == *en && it.modpath == modpath) {
+                            it.str_names.entry(v.to_string()).or_insert(s);
+                        }
+                    }
+                }
+            }
+        }
+        for c in line.chars() {
+            match c {
+                '{' => depth += 1,
+                '}' => {
+                    depth -= 1;
+                    if let Some((_, d)) = cur {
+                        if depth == d {
+                            cur = None;
+                            pending_attr = None;
+                        }
+                    }
+                    if let Some((_, d)) = modstack.last() {
+                        if depth == *d {
+                            modstack.pop();
+                        }
+                    }
+                    if let Some((_, d)) = &in_str_name_impl {
+                        if depth == *d {
+                            in_str_name_impl = None;
+                        }
+                    }
+                }
+                _ => {}
+            }
+        }
+    }
+    items
+}
+
+fn proto_name(items: &[Item], it: &Item) -> String {
+    // module path -> enclosing type names
+    let mut parts: Vec<String> = vec![];
+    let mut scope: Vec<String> = vec![];
+    for m in &it.modpath {
+        let parent = items.iter().find(|p| p.modpath == scope && snake(&p.name) == *m).map(|p| p.name.clone()).unwrap_or_else(|| m.clone());
+        parts.push(parent);
+        scope.push(m.clone());
+    }
+    parts.push(it.name.clone());
+    format!("ommx.v1.{}", parts.join("."))
+}
+
+fn rust_path(it: &Item) -> String {
+    let mut p = String::from("::ommx::v1::");
+    for m in &it.modpath {
+        p.push_str(m);
+        p.push_str("::");
+    }
+    p.push_str(&it.name);
+    p
+}
+
 fn main() {
-    // export the interposed libc symbols of the harness binary in its dynamic symbol table so that
-    // dlsym(RTLD_DEFAULT, "getrandom") (Rust std's weak lookup) finds them as well
     println!("cargo:rustc-link-arg-bins=-rdynamic");
     println!("cargo:rerun-if-changed=build.rs");
+    println!("cargo:rerun-if-changed={}", BINDINGS);
+    let src = std::fs::read_to_string(BINDINGS).expect("read the checked-in prost bindings");
+    let items = parse(&src);
+    let mut out = String::new();
+    out.push_str("// @generated by /verif/sim/build.rs from rust/ommx/src/ommx.v1.rs\n");
+    out.push_str("pub struct RustField { pub name: &'static str, pub attr: &'static str }\n");
+    out.push_str("pub struct RustItem { pub proto_name: &'static str, pub rust_path: &'static str, pub kind: &'static str, pub fields: &'static [RustField], pub values: &'static [(&'static str, i64, &'static str)] }\n");
+    out.push_str("pub static RUST_ITEMS: &[RustItem] = &[\n");
+    for it in &items {
+        let _ = write!(out, "    RustItem {{ proto_name: {:?}, rust_path: {:?}, kind: {:?}, fields: &[", proto_name(&items, it), rust_path(it), it.kind);
+        for f in &it.fields {
+            let _ = write!(out, "RustField {{ name: {:?}, attr: {:?} }}, ", f.name, f.attr);
+        }
+        out.push_str("], values: &[");
+        for (v, n) in &it.values {
+            let _ = write!(out, "({:?}, {}, {:?}), ", v, n, it.str_names.get(v).cloned().unwrap_or_default());
+        }
+        out.push_str("] },\n");
+    }
+    out.push_str("];\n\n");
+    out.push_str("/// decode with the prost bindings from a (possibly fragmented) buffer and encode again\n");
+    out.push_str("pub fn reencode(proto_name: &str, buf: &mut dyn ::bytes::Buf) -> Option<Result<Vec<u8>, String>> {\n    use ::prost::Message;\n    match proto_name {\n");
+    for it in items.iter().filter(|i| i.kind == "message") {
+        let _ = writeln!(out, "        {:?} => Some(<{}>::decode(buf).map(|m| m.encode_to_vec()).map_err(|e| e.to_string())),", proto_name(&items, it), rust_path(it));
+    }
+    out.push_str("        _ => None,\n    }\n}\n\n");
+    out.push_str("/// decode(encode(decode(bytes))) == decode(bytes) with the prost bindings' own PartialEq\n");
+    out.push_str("pub fn self_roundtrip(proto_name: &str, bytes: &[u8]) -> Option<Result<bool, String>> {\n    use ::prost::Message;\n    match proto_name {\n");
+    for it in items.iter().filter(|i| i.kind == "message") {
+        let p = rust_path(it);
+        let _ = writeln!(
+            out,
+            "        {:?} => Some((|| {{ let m = <{p}>::decode(bytes).map_err(|e| e.to_string())?; let b = m.encode_to_vec(); let m2 = <{p}>::decode(&b[..]).map_err(|e| e.to_string())?; Ok(m == m2) }})()),",
+            proto_name(&items, it)
+        );
+    }
+    out.push_str("        _ => None,\n    }\n}\n");
+    let dest = std::path::Path::new(&std::env::var("OUT_DIR").unwrap()).join("registry.rs");
+    std::fs::write(dest, out).expect("write registry.rs");
 }
